@@ -392,3 +392,43 @@ def run_hid_owner(prog, rep):
     if n < 1:
         raise AnalysisBroken('R-HIDOWN: no raw local HDF5 id found (anchor: H5Group::objectOfType)')
     return rule
+
+
+def run_release(prog, rep):
+    """the RAII wrapper releases its id unconditionally: ~H5Object -> close() -> dec() -> H5Idec_ref whenever the id is valid"""
+    from ..absint import GenericInterp
+    rule = rep.rule('R-HIDREL', 'H5Object releases its id unconditionally: the destructor calls close(), every path of close() runs dec() before invalidate(), dec() decrements whenever the id is valid', floor=3)
+    HO = 'nix::hdf5::H5Object'
+    dt = [x for x in prog.funcs.values() if x.q == HO + '::~H5Object' and x.body is not None]
+    if not dt:
+        raise AnalysisBroken('R-HIDREL: ~H5Object not found')
+    names = [c.callee.get('name') for c in dt[0].calls()]
+    conds = [x for x in dt[0].walk() if x.k in ('if', 'cond', 'try')]
+    rule.check('close' in names and not conds, 'H5Object::~H5Object', rep.where(dt[0]), dt[0].label(), 'calls close() unconditionally', 'the destructor does not call close() unconditionally (%s)' % names)
+    watch = lambda n: (n.callee or {}).get('name') in ('dec', 'invalidate', 'H5Idec_ref', 'H5Iis_valid')
+    cl = prog.fn(HO + '::close')
+    probs = []
+    res = GenericInterp(prog, watch=watch).enumerate(cl, this='THIS', args=[])
+    for assign, out, log, fields in res:
+        if out[0] != 'ret':
+            probs.append('close() can leave by %r' % (out[0],))
+            continue
+        nm = [l[0] for l in log]
+        if 'dec' not in nm:
+            probs.append('a path of close() does not release the id (taken when %s): the id stays open in the library, close() of the file returns while libhdf5 keeps the file open' % (' && '.join(('' if v else '!') + repr(k)[:70] for k, v in sorted(assign.items(), key=repr)) or 'always'))
+        elif 'invalidate' in nm and nm.index('invalidate') < nm.index('dec'):
+            probs.append('close() forgets the id before releasing it')
+    rule.check(not probs and bool(res), 'H5Object::close', rep.where(cl), cl.label(), 'dec() then invalidate() on every path (%d)' % len(res), '; '.join(sorted(set(probs))))
+    de = prog.fn(HO + '::dec')
+    probs = []
+    res = GenericInterp(prog, watch=watch).enumerate(de, this='THIS', args=[])
+    for assign, out, log, fields in res:
+        valid = [v for k, v in assign.items() if 'H5Iis_valid' in repr(k)]
+        other = [k for k in assign if 'H5Iis_valid' not in repr(k)]
+        dec = [l for l in log if l[0] == 'H5Idec_ref']
+        if other:
+            probs.append('the release also depends on %s' % [repr(k)[:60] for k in other])
+        if (not valid or valid[0]) and (not dec or dec[0][1] != ('mem', 'hid', 'THIS')):
+            probs.append('a valid id is not handed to H5Idec_ref')
+    rule.check(not probs and bool(res), 'H5Object::dec', rep.where(de), de.label(), 'H5Idec_ref(hid) iff H5Iis_valid(hid)', '; '.join(sorted(set(probs))))
+    return rule
